@@ -20,7 +20,8 @@ fn vec_of<T: Arb>(u: &mut Unstructured<'_>, min: usize, max: usize) -> Result<Ve
 
 impl Arb for Seed32 {
     fn arb(u: &mut Unstructured<'_>) -> Result<Self> {
-        Ok(match u.int_in_range(0..=7u8)? {
+        Ok(match u.int_in_range(0..=8u8)? {
+            8 => Seed32::SourceConst(u.arbitrary()?),
             0 => Seed32::Zero,
             1 => Seed32::Ones,
             2 => Seed32::SingleBit(u.arbitrary()?),
